@@ -160,4 +160,58 @@ func FeatureCatalogue() []*Request {
 	return out
 }
 
+// CallFeatureRequests: the feature packages that are CALLED (generated Go client -> generated Go server,
+// C01) with boundary values in both directions. They are the packages whose emitted codecs write JSON
+// that differs from plain protojson in a way a transport layer could damage — 64-bit integers as bare
+// JSON numbers (int64_encoding = NUMBER on singular / repeated / optional / map fields, scalar root
+// unwrap of 64-bit lists and maps, 64-bit siblings of an unwrap map), custom bytes alphabets, nullable
+// scalars — plus the plain package as the reference. Packages whose codecs do not round-trip on the
+// unchanged tree (flatten, flattened oneof: C04's findings) are left to C04.
+func CallFeatureRequests() []*Request {
+	want := map[string]bool{"ftplain": true, "fti64": true, "fti64rep": true, "fti64opt": true, "fti64map": true, "ftunwrap": true,
+		"ftbytes": true, "ftbytesrep": true, "ftnull": true, "ftmulti": true}
+	var out []*Request
+	for _, r := range FeatureCatalogue() {
+		if want[r.ID] {
+			out = append(out, r)
+		}
+	}
+	q := func(id, t string) string { return id + ".v1." + t }
+	tag := func(r *Request, tags ...string) *Request { r.Tags = append(r.Tags, tags...); return r }
+	// scalar root unwrap of 64-bit integers (written as bare JSON numbers by the emitted MarshalJSON),
+	// message root unwrap whose elements carry NUMBER fields, 64-bit siblings of an unwrap map
+	out = append(out, tag(featureReq("ftunwrapnum", nil, []*Message{
+		M("I64List", F("vals", 1, "int64", Rep(), Unwrap())),
+		M("U64List", F("vals", 1, "uint64", Rep(), Unwrap())),
+		M("S64List", F("vals", 1, "sfixed64", Rep(), Unwrap())),
+		M("I64Map", F("by_key", 1, "int64", MapOf("string"), Unwrap())),
+		M("U64Map", F("by_key", 1, "uint64", MapOf("string"), Unwrap())),
+		M("I32List", F("vals", 1, "int32", Rep(), Unwrap())),
+		M("Tick", F("t", 1, "int64", I64("NUMBER")), F("seq", 2, "uint64", I64("NUMBER")), F("sym", 3, "string")),
+		M("TickList", F("ticks", 1, "", Msg(q("ftunwrapnum", "Tick")), Rep(), Unwrap())),
+		M("Series", F("by_sym", 1, "", Msg(q("ftunwrapnum", "I64List")), MapOf("string")), F("total", 2, "int64"), F("utotal", 3, "uint64"), F("count", 4, "int32"), F("label", 5, "string")),
+		M("ListSibling", F("vals", 1, "int64", Rep(), Unwrap()), F("total", 2, "int64"), F("label", 3, "string")),
+	}, "I64List", "U64List", "S64List", "I64Map", "U64Map", "I32List", "TickList", "Series", "ListSibling"), "unwrap", "int64"))
+	// NUMBER-encoded responses behind every verb (path and query binding on the request side)
+	{
+		id := "fti64verbs"
+		pkg := id + ".v1"
+		f := &File{Messages: []*Message{
+			M("Entry", F("id", 1, "string"), F("amount_minor", 2, "int64", I64("NUMBER")), F("sequence", 3, "uint64", I64("NUMBER")), F("history", 4, "int64", Rep(), I64("NUMBER")),
+				F("plain_big", 5, "int64"), F("ratio", 6, "double"), F("count", 7, "int32"), F("note", 8, "string")),
+			M("LastReq", F("account_id", 1, "string"), F("amount_minor", 2, "int64", Query("amount_minor", false))),
+			M("DropReq", F("sequence", 1, "uint64")),
+			M("PutReq", F("id", 1, "string"), F("amount_minor", 2, "int64", I64("NUMBER")), F("sequence", 3, "uint64", I64("NUMBER"))),
+		}}
+		f.Services = []*Service{Svc("Ledger", "/api/v1",
+			RPC("Record", pkg+".Entry", pkg+".Entry", "POST", "/entries"),
+			RPC("Last", pkg+".LastReq", pkg+".Entry", "GET", "/accounts/{account_id}/last"),
+			RPC("Drop", pkg+".DropReq", pkg+".Entry", "DELETE", "/entries/{sequence}"),
+			RPC("Put", pkg+".PutReq", pkg+".Entry", "PUT", "/entries/{id}"),
+			RPC("Patch", pkg+".PutReq", pkg+".Entry", "PATCH", "/entries/{id}"))}
+		out = append(out, tag(OneFile(id, pkg, f), "features", "int64", "verbs"))
+	}
+	return out
+}
+
 func init() { _ = fmt.Sprint }
